@@ -15,15 +15,19 @@ from ..gen.leb import uleb
 PROP = 'C18'
 LEVEL = 'translation_validation'
 RULE = ('(file, option) pairs run through GNU readelf 2.40 and `python scripts/readelf.py` from the '
-        'repository root, compared with a vendored frozen copy of the project\'s compare_output: (1) the '
-        'regression corpus x the 18 options of the project\'s runner with its own skip rules (quick: a '
-        'seed-rotated third covering every option; thorough: all); (2) gcc-compiled shared and '
-        'relocatable objects of /verif/corpus/src at DWARF 2-5 x -O0/-O2 and clang objects for x86-64, '
-        'i386, ARM, AArch64, MIPS32/64, PPC64, s390x at DWARF 2 and 4; (3) one synthesized file per '
-        'entry of the clone\'s description tables (e_machine, OS ABI, e_type, sh_type, sh_flags bits, '
-        'p_type, p_flags, symbol type/bind/visibility/shndx, dynamic tags, DT_FLAGS/DT_FLAGS_1 bits, '
-        'relocation types per machine, version flags) printed with the option that shows it. '
-        'A pair is non-trivial when both programs print at least 3 lines. programs = pairs compared.')
+        'repository root, compared with a vendored frozen copy of the project\'s compare_output. Kinds: (corpus) the '
+        'regression corpus x the 18 options of the project\'s runner with its own skip rules (quick: a seed-rotated third '
+        'covering every option; thorough: all); (compiled) gcc shared/relocatable objects of /verif/corpus/src at DWARF 2-5 x '
+        '-O0/-O2, clang objects for 8 targets at DWARF 2/4 (+5 for four of them), g++/clang++/gfortran/rustc objects; '
+        '(descr) one synthesized file per entry of the clone\'s ELF description tables (e_machine, e_type, OS ABI, machine flags, '
+        'sh_type, sh_flags, p_type, p_flags, symbol type/bind/visibility/shndx, dynamic tags per machine/OS, DT_FLAGS, '
+        'DT_FLAGS_1, DT_MIPS_FLAGS, note types and GNU property bits, relocation types of 9 machines) printed with the option '
+        'that shows it; (dwdescr) one DIE / frame instruction / attribute per entry of the DWARF and build-attribute tables '
+        '(DW_OP per machine and in a 64-bit-format unit, regx/bregx over each register table, DW_TAG, DW_AT by class, DW_FORM, '
+        'value enumerations, DW_UT, DW_CFA, ARM and RISC-V attributes), judged entry by entry; (generated) linker/compiler-'
+        'shaped files from the envelope generators (versions, notes, symtab, relocs, layout, dumps, lines, frames, names, '
+        'loclists). A pair is non-trivial when both programs print at least 3 lines; a table entry is non-trivial always. '
+        'programs = pairs + table entries compared.')
 ASSUMPTIONS = [
     'oracle: GNU readelf 2.40 (the project pins >= 2.41); pairs where 2.40 is known to print an older layout '
     '(--debug-dump=loc/Ranges on .debug_loclists/.debug_rnglists) or not to relocate (LoongArch objects) are excluded',
@@ -206,6 +210,7 @@ def judge(sh, what, path, option, ident, kind):
         return
     res, msg, n = run_pair(path, option)
     sh.count('pairs_run')
+    sh.count('pairs_run:' + kind)
     if res == 'skip':
         sh.skip(msg)
         return
@@ -334,6 +339,7 @@ def run_descr(idx, rng, sh):
             r1 = oracles.run(['readelf', option, p], cwd=REPO)
             r2 = oracles.run([sys.executable, 'scripts/readelf.py', option, p], cwd=REPO)
             sh.count('descr_entries_run')
+            sh.count('entries_run:' + label.split('/')[0])
             if 'Traceback (most recent call last)' in r2[2]:
                 sh.violation('C18:descr %s: clone raises on entry %s' % (label, name), message=r2[2].strip().splitlines()[-1][:200])
                 continue
@@ -647,6 +653,7 @@ def judge_blocks(sh, table, option, img, s, is_start, min_blocks, gnu_placeholde
         return
     for g, c in zip(b1, b2):
         sh.count('descr_entries_run')
+        sh.count('entries_run:' + table.split('/')[0])
         label = block_label(g)
         gtxt = '\n'.join(g)
         ok, msg = compare_output(gtxt, '\n'.join(c))
@@ -990,6 +997,7 @@ def run_generated(idx, rng, sh):
         for option in options:
             res, msg, n = run_pair(p, option)
             sh.count('pairs_run')
+            sh.count('pairs_run:generated:' + name)
             if res == 'skip':
                 sh.skip(msg)
             elif res == 'ok':
